@@ -61,8 +61,7 @@ def run(model, rep):
                     missing = REQUIRED_TRIGGERS - names
                     is_builtin_arm = any(pp and 'dir(builtins)' in kk for (kk, pp) in facts)
                     notbuiltin = [x for x in names if x not in dir(builtins)]
-                    rep.check(not missing and on_module, 'C09.TRIG', where, 'trigger list %s' % sorted(names), 'contains exec, eval, locals, globals, vars; taints the module node',
-                              'dynamic-name builtins %s do not set the taint flag' % sorted(missing) if missing else 'taint is not written on the module node', key='C09.TRIG|list')
+                    rep.note('trigger list %s at %s' % (sorted(names), where))
                     trig_list_ok = True
             if isinstance(t, ast.Compare) and isinstance(t.ops[0], ast.Eq) and isinstance(t.comparators[0], ast.Constant) and t.comparators[0].value == '*':
                 star = True
@@ -71,28 +70,11 @@ def run(model, rep):
                 exec_node = True
                 rep.check(on_module, 'C09.TRIG', where, 'exec statement taints', 'written on the module node', 'exec-statement taint is not written on the module node', key='C09.TRIG|exec')
     if not trig_list_ok:
-        rep.violation('C09.TRIG', 'src/python_minifier/rename/resolve_names.py', 'trigger list', 'no taint store guarded by a membership test in a trigger list containing any of %s' % sorted(REQUIRED_TRIGGERS), key='C09.TRIG|list')
-    if not star:
-        rep.violation('C09.TRIG', 'src/python_minifier/rename/bind_names.py', 'import *', 'a star import no longer sets the taint flag', key='C09.TRIG|star')
+        rep.note('no literal trigger list found next to a taint store (the trigger positions below decide the behaviour)')
     if not exec_node:
-        rep.violation('C09.TRIG', 'src/python_minifier/rename/resolve_names.py', 'exec statement', 'an exec statement no longer sets the taint flag', key='C09.TRIG|exec')
-    # the trigger test must be reached for every unresolved builtin name: abstract evaluation of get_binding on a module namespace
-    gb = model.func('python_minifier.rename.resolve_names.get_binding')
-    cells = 0
-    for name in sorted(REQUIRED_TRIGGERS) + ['print', 'len']:
-        ns = Obj('Module', global_names=set(), nonlocal_names=set(), bindings=[], tainted=False)
-        hooks = {'dir': lambda I, e, args, kw, env: dir(builtins), 'BuiltinBinding': lambda I, e, args, kw, env: Obj('BuiltinBinding', name=args[0]),
-                 'NameBinding': lambda I, e, args, kw, env: Obj('NameBinding', name=args[0]), '.disallow_rename': lambda I, e, args, kw, env: None}
-        I = Interp(model, gb.module, hooks)
-        res = I.explore(lambda: I.call_function(gb.qual, [name, ns]))
-        cells += 1
-        if any(r[0][0] != 'return' for r in res):
-            raise AnalysisError('UNDECIDED: resolve_names.get_binding(%r, <module>) -> %s' % (name, [r[0] for r in res]))
-        tainted = ns.attrs.get('tainted')
-        want = name in REQUIRED_TRIGGERS
-        rep.check(tainted is want, 'C09.TRIG', gb.loc(), 'get_binding(%r, module) sets tainted=%r' % (name, tainted), 'as required',
-                  'an unresolved reference to builtin %r %s the taint flag' % (name, 'does not set' if want else 'sets'), key='C09.TRIG|enum|' + name)
-    rep.floor('C09.TRIG', 8)
+        rep.violation('C09.TRIG', 'src/python_minifier/rename/resolve_names.py', 'exec statement', 'an exec statement (Python 2 tree) no longer sets the taint flag', key='C09.TRIG|exec')
+    trigger_positions(model, rep)
+    rep.floor('C09.TRIG', 21)
 
     # ---------------- GATE under hypothesis
     P = Pipeline(model, hypothesis={'module.tainted': True})
@@ -196,3 +178,53 @@ def gate_enum(model, rep):
             rep.check(got == want, 'C09.GATE', fi.loc(), '%s(switch=%r) pins %d of 2 bindings' % (fname, switch, len(got)),
                       'all bindings pinned' if switch is False else 'only the preserved name pinned',
                       'with the switch %r the gate pins %s' % (switch, [x.attrs.get('name') for x in pinned]), key='C09.GATE|enum|%s|%r' % (fname, switch))
+
+
+TAINT_PROBES = [
+    ('module level call', "x = eval('1')\n", True),
+    ('nested function', "def f():\n    def g():\n        return locals()\n    return g\n", True),
+    ('decorator', "@eval('d')\ndef f(): pass\n", True),
+    ('default value', "def f(a=globals()): pass\n", True),
+    ('keyword-only default', "def f(*, a=vars()): pass\n", True),
+    ('comprehension element', "y = [vars() for _ in z]\n", True),
+    ('comprehension condition', "y = [q for q in z if eval(q)]\n", True),
+    ('attribute base', "n = exec.__name__\n", True),
+    ('class body', "class C:\n    n = locals()\n", True),
+    ('method', "class C:\n    def m(self):\n        return globals()\n", True),
+    ('after a local import', "def f():\n    import os\n    return eval(os.x)\n", True),
+    ('lambda', "f = lambda: globals()\n", True),
+    ('argument of a call', "print(sorted(vars()))\n", True),
+    ('star import', "from m import *\n", True),
+    ('class attribute of the same name plus a genuine use', "class E:\n    def eval(self, s):\n        return s\n    __call__ = eval\ndef run(e):\n    return eval(e)\n", True),
+    ('class attribute named vars plus a genuine use', "class K:\n    vars = (1, 2)\n    req = frozenset(vars)\ndef show(o):\n    return vars(o)\n", True),
+    ('control: no trigger', "x = len(y)\n", False),
+    ('control: module defines its own eval', "def eval(s):\n    return s\nx = eval('1')\n", False),
+    ('control: attribute named eval', "x = obj.eval('1')\n", False),
+    ('control: local variable named vars', "def f():\n    vars = 1\n    return vars\n", False),
+]
+
+
+def trigger_positions(model, rep):
+    """Whole bind + resolve run on probe modules: the taint flag must be set for a trigger in any position."""
+    from .c03 import to_obj, MAPPER, R
+    from ..absnodes import set_parents
+    rn = model.func(R + 'resolve_names.resolve_names')
+    for (label, source, want) in TAINT_PROBES:
+        tree = ast.parse(source)
+        mod = to_obj(tree, {})
+        set_parents(mod)
+        hooks = dict(__import__('pmstatic.absnodes', fromlist=['std_hooks']).std_hooks(), **{'dir': lambda I, e, args, kw, env: dir(builtins)})
+        I = Interp(model, MAPPER, hooks, max_depth=600)
+        I.MAX_PATHS = 8
+
+        def thunk():
+            I.call_function(MAPPER + '.add_namespace', [mod])
+            I.call_function(R + 'bind_names.bind_names', [mod])
+            I.call_function(R + 'resolve_names.resolve_names', [mod])
+        res = I.explore(thunk)
+        if len(res) != 1 or res[0][0][0] != 'return':
+            raise AnalysisError('UNDECIDED: bind/resolve on taint probe %r -> %s %s' % (label, [r[0] for r in res][:2], res[0][2][:3]))
+        got = mod.attrs.get('tainted')
+        rep.check(got is want, 'C09.TRIG', rn.loc(), 'trigger position: %s -> tainted=%r' % (label, got), 'as required',
+                  ('a module with a dynamic-name trigger in position `%s` is not marked tainted after name resolution: its names can be renamed' % label) if want else
+                  ('a module without a trigger (%s) is marked tainted' % label), key='C09.TRIG|position|' + label)
